@@ -195,6 +195,21 @@ for _cls, _l in (("ADE", "A"), ("CYT", "C"), ("GUA", "G")):
     )
 
 
+# thymine is always deoxy, uracil always ribo; the strand-end suffix as for the other bases
+for _cls, _name in (("THY", "DT"), ("URA", "RU")):
+    contract(
+        f"pdb2pqr.na:{_cls}.set_state", ["C02", "C01"],
+        params={"self": Obj(f"pdb2pqr.na:{_cls}", ffname=Str,
+                            map=OneOf(DictOf(("O2'", Obj("Atom", name=Const("O2'")))), DictOf()),
+                            is5term=Enum(0, 1), is3term=Enum(0, 1))},
+        requires=[],
+        ensures=[f"self.ffname == '{_name}' + ('5' if self.is5term else '') + ('3' if self.is3term else '')"],
+        modifies=["self.ffname"],
+        name=f"{_cls}.set_state",
+        native=False,
+    )
+
+
 # ---------------------------------------------------------------- termini per chain (biomolecule.assign_termini)
 def stub_apply_patch(self, patchname, residue):
     residue.patches.append(patchname)
